@@ -19,6 +19,11 @@ func (c *c10) Cases(tier string, seed int64) []core.Case {
 	for i := 0; i < n; i++ {
 		cs = append(cs, core.MkCase(fmt.Sprintf("writer-%d", i), p1Params{r.Int63(), "writer"}))
 	}
+	for i := 0; i < map[string]int{"quick": 4, "thorough": 60}[tier]; i++ {
+		for _, h := range encoderHistories {
+			cs = append(cs, core.MkCase(fmt.Sprintf("writer-via-encoder-%s-%d", h, i), p1Params{r.Int63(), "writer:" + h}))
+		}
+	}
 	// reader direction: all placements of non-saved entries among up to 6 entries
 	for total := 2; total <= 6; total++ {
 		cs = append(cs, core.MkCase(fmt.Sprintf("reader-placements-%d", total), p1Params{r.Int63(), fmt.Sprintf("reader-placements:%d", total)}))
@@ -46,6 +51,11 @@ func (c *c10) Run(cs core.Case) core.Result {
 	switch {
 	case p.Kind == "writer":
 		c.runWriter(r, rng)
+	case len(p.Kind) > 7 && p.Kind[:7] == "writer:":
+		// the set is written through a history on one par1.Encoder object
+		c10WriterHistory = p.Kind[7:]
+		c.runWriter(r, rng)
+		c10WriterHistory = ""
 	case len(p.Kind) > 18 && p.Kind[:18] == "reader-placements:":
 		var total int
 		fmt.Sscanf(p.Kind, "reader-placements:%d", &total)
@@ -76,6 +86,8 @@ func (c *c10) Run(cs core.Case) core.Result {
 	return r.Done()
 }
 
+var c10WriterHistory string
+
 func (c *c10) runWriter(r *core.R, rng *rand.Rand) {
 	nf := 1 + rng.Intn(8)
 	nv := 1 + rng.Intn(6)
@@ -83,12 +95,42 @@ func (c *c10) runWriter(r *core.R, rng *rand.Rand) {
 		nv = 7 + rng.Intn(93)
 	}
 	files := genP1Files(rng, nf)
+	hist := ""
+	if c10WriterHistory != "" && nf >= 2 {
+		hist = c10WriterHistory
+		refused := false
+		p1CreateHook = func(idx string, paths []string, nv int) (error, *core.PanicInfo) {
+			err, ref, pi := p1CreateVia(hist, rng, idx, paths, nv)
+			refused = ref
+			return err, pi
+		}
+		defer func() { p1CreateHook = nil }()
+		e, err := newP1Env(files, nv, true)
+		p1CreateHook = nil
+		if err != nil && refused {
+			// the Encoder declined the repeated step: acceptable, nothing to validate
+			r.Count("encoder_history_refused", 1)
+			if e != nil {
+				e.close()
+			}
+			return
+		}
+		if e != nil {
+			e.close()
+		}
+		r.Count("encoder_histories|"+hist, 1)
+		p1CreateHook = func(idx string, paths []string, nv int) (error, *core.PanicInfo) {
+			err, _, pi := p1CreateVia(hist, rng, idx, paths, nv)
+			return err, pi
+		}
+	}
 	e, err := newP1Env(files, nv, true)
+	p1CreateHook = nil
 	if e != nil {
 		defer e.close()
 	}
 	if err != nil {
-		r.Violate("create-failed", "%v", err)
+		r.Violate("create-failed", "%v (encoder history %q)", err, hist)
 		return
 	}
 	var in []par1rw.InFile
